@@ -594,3 +594,4 @@ MANIFEST = {
     "ref": "DESIGN.md §4 C13",
 }
 MANIFEST["text"] += ' Group membership memo: BFS to depth 4 (5 thorough) over 16 events (membership queries on a group, on the groups using it, on the system on top and through get_compatible_units; add_units / remove_units on the lowest and middle group) against a plain set model, every query answer checked on every transition.'
+MANIFEST["text"] += ' A unit redefined with another dimensionality is among the events, with a probe on a unit defined from it.'
